@@ -8,7 +8,7 @@ args = sys.argv[5:]
 wt = os.environ.get("SEED_WT", prop)
 out = f"/tmp/wt/{wt}.out"
 patch = f"{out}/patch{n}.diff"
-demo = [f for f in os.listdir(out) if f.startswith(f"demo{n}")][0]
+demo = sorted([f for f in os.listdir(out) if f.startswith(f"demo{n}")], key=lambda f: (not f.endswith(".go"), f))[0]
 r = subprocess.run(["/verif/seedconfirm.sh", f"/tmp/wt/{wt}", patch, f"{out}/{demo}", dest, mod] + args, capture_output=True, text=True)
 confirm = r.stdout.strip().splitlines()
 print("\n".join(confirm))
